@@ -162,7 +162,8 @@ class PathEnumerator:
             # completion path
             killed = {n.id for s in st.body for n in ast.walk(s) if isinstance(n, ast.Name) and isinstance(n.ctx, ast.Store)}
             env3 = {k: v for k, v in env.items() if k.split(".")[0] not in killed}
-            yield from self._block(list(st.orelse), conds + [(marker, False)], env3, events + [("loop", marker, list(st.body))])
+            # (the loop completes whatever the number of iterations: no condition is attached to the completion path)
+            yield from self._block(list(st.orelse), conds, env3, events + [("loop", marker, list(st.body))])
         elif isinstance(st, ast.Try):
             handlers = st.handlers
             sbody = [S(b) for b in st.body]
